@@ -42,6 +42,7 @@ TQueue ==
      /\ IF ok /\ ~Ev.fatal THEN FQueue(Ev.typ, Ev.bs) ELSE UNCHANGED fvars
   /\ UNCHANGED bad
 
+TInject == IsEvent("finject") /\ FInject(Ev.ids) /\ UNCHANGED bad
 TUpdate == IsEvent("fupd") /\ FUpdate(Ev.id) /\ UNCHANGED bad
 \* StartSending: changes nothing in what the program means (ids keep counting, the election id stays)
 TSend == IsEvent("fsend") /\ UNCHANGED <<fvars, bad>>
@@ -56,7 +57,7 @@ TSent ==
                       THEN "fluentIds" ELSE "fluentSent"))
   /\ UNCHANGED <<fvars, bad>>
 
-FTNext == TStart \/ TNew \/ TCall \/ TQueue \/ TUpdate \/ TSend \/ TSent
+FTNext == TStart \/ TNew \/ TCall \/ TQueue \/ TInject \/ TUpdate \/ TSend \/ TSent
 FTSpec == FTInit /\ [][FTNext]_ftvars
 
 Matched == TLCGet("stats").diameter - 1
